@@ -466,7 +466,7 @@ def run(ctx):
     ctx.prove("C24")
     quick = ctx.tier == "quick"
     reserved = reserved_words()
-    literal_tie(ctx, 500 if quick else 8000)
+    literal_tie(ctx, 400 if quick else 8000)
     col = Collector(ctx)
 
     # ---- corpus of past failures first
@@ -484,7 +484,7 @@ def run(ctx):
     # ---- every parseable corpus script (quick: a sample)
     paths = G.corpus_scripts()
     if quick:
-        paths = ctx.rng.sample(paths, 700)
+        paths = ctx.rng.sample(paths, 500)
     n_parse = n_ok = 0
     for p in paths:
         try:
@@ -515,7 +515,7 @@ def run(ctx):
             col.add(key, what, {"script": t, "kind": "null-template"})
     words = sorted(w for w in reserved if re.match(r"^[a-z_]+$", w))
     if quick:
-        words = ctx.rng.sample(words, 25)
+        words = ctx.rng.sample(words, 15)
     n_r = n_r_parse = 0
     for w in words:
         for t in RESERVED_TEMPLATES:
@@ -532,7 +532,7 @@ def run(ctx):
     ctx.cov["reserved_word_cases"] = {"generated": n_r, "parseable": n_r_parse, "words": len(words)}
 
     # ---- generated scripts with data: structure + run equivalence
-    n_gen = 70 if quick else 2500
+    n_gen = 50 if quick else 1500
     n_run = n_run_ok = 0
     hist: Dict[str, int] = {}
     directed = directed_cases()
@@ -566,7 +566,7 @@ def run(ctx):
     ctx.cov["generated_template_histogram"] = hist
 
     # ---- test-suite scripts with data: run(original) = run(prettified)
-    n_suite = 25 if quick else 600
+    n_suite = 15 if quick else 400
     sp = G.corpus_scripts()
     ctx.rng.shuffle(sp)
     done = cmp_ok = 0
@@ -597,6 +597,8 @@ def run(ctx):
     ctx.cov["suite_runs_compared"] = done
     ctx.cov["suite_runs_equal"] = cmp_ok
     col.report()
+    import time as _t
+    ctx.cov["python_cpu_seconds"] = round(_t.process_time(), 1)
     ctx.cov["rule"] = ("one evaluated case = one script (corpus / template / generated) put through parse, prettify, re-parse, AST comparison, "
                        "comment multiset, second prettify (+ run() of both where data exists), or one literal compared between Coq model, "
                        "_handle_literal and the real parser; distinct = script path / template instance / literal text")
